@@ -79,6 +79,10 @@ func instancesFor(prop, tier string) []*Instance {
 		c11Instances(add, thorough, 0)
 	case "C16":
 		c16Instances(add, thorough)
+	case "C19":
+		c19Instances(add, thorough)
+	case "C20":
+		c20Instances(add, thorough)
 	case "C17":
 		c17Instances(add, thorough)
 	case "C18":
@@ -1018,6 +1022,93 @@ func c18Instances(add func(*Instance), thorough bool) {
 		add(&Instance{Pkg: "roaring64", Func: "VerifC18Decode", Params: P("L", 20, "rd", rd), CheckAlloc: true})
 		for c := 1; c <= 3; c++ {
 			add(&Instance{Pkg: "roaring64", Func: "VerifC18Decode", Params: P("L", 0, "corrupt", c, "rd", rd, "anb", 2, "ane", 1, "akeys", 4, "alow", 3), CheckAlloc: true})
+		}
+	}
+}
+
+// BSI: both implementations (pkg roaring64 = 64-bit BSI, pkg bsi = BitSliceIndexing)
+func c19Instances(add func(*Instance), thorough bool) {
+	for _, pkg := range []string{"roaring64", "bsi"} {
+		ad := func(pp map[string]int, tier int) {
+			add(&Instance{Pkg: pkg, Func: "VerifC19Update", Params: with(pp, "cb", 5, "cm", 3), Tier: tier})
+		}
+		base := P("nv", 2, "w", 2)
+		for _, sc := range []int{0, 2} {
+			ad(with(base, "st", 0, "w2", 2, "sc", sc), 0)
+			ad(with(base, "st", 0, "w2", 3, "sc", sc), 0) // forces the index to widen
+			ad(with(base, "st", 0, "w2", 2, "sc", sc, "fixed", 1), 0)
+		}
+		ad(with(base, "st", 0, "w2", 2, "sc", 0, "w", 3), 0) // narrower overwrite
+		ad(with(base, "st", 2, "w2", 2, "sc", 1), 0)
+		ad(with(base, "st", 3, "sc", 0), 0)
+		ad(with(base, "st", 3, "sc", 2), 0)
+		ad(with(base, "st", 5), 0)
+		ad(with(base, "st", 6), 0)
+		ad(with(base, "st", 8, "sc", 0), 0)
+		ad(with(base, "st", 8, "sc", 1, "w", 3), 0)
+		for _, par := range []int{0, 1, 2} {
+			ad(with(base, "st", 9, "par", par), 0)
+		}
+		ad(with(base, "st", 10, "sc", 0), 0)
+		ad(with(base, "st", 10, "sc", 2), 0)
+		ad(with(P("nv", 3, "w", 2), "st", 5), 0) // third SetValue overwrites the first column
+		ad(with(P("nv", 3, "w", 2), "st", 3, "sc", 0), 1)
+		ad(with(P("nv", 2, "w", 3), "st", 0, "w2", 4, "sc", 1), 1)
+		// symbolic column ids with concrete values
+		for _, vv := range [][3]int{{-2, 1, 1}, {1, -1, -2}, {0, 0, 1}} {
+			ad(P("nv", 2, "w", 2, "st", 0, "w2", 2, "symcol", 1, "vfix", 1, "v0", vv[0], "v1", vv[1], "v2", vv[2]), 0)
+			ad(P("nv", 2, "w", 2, "st", 3, "symcol", 1, "vfix", 1, "v0", vv[0], "v1", vv[1]), 0)
+		}
+		if pkg == "roaring64" {
+			ad(with(base, "st", 1, "w2", 3, "sc", 0), 0)
+			ad(with(base, "st", 4, "sc", 0), 0)
+			ad(with(base, "st", 4, "sc", 2), 0)
+			ad(with(base, "st", 7), 0)
+		}
+	}
+}
+
+func c20Instances(add func(*Instance), thorough bool) {
+	for _, pkg := range []string{"roaring64", "bsi"} {
+		ad := func(pp map[string]int, tier int) {
+			add(&Instance{Pkg: pkg, Func: "VerifC20Query", Params: with(pp, "cb", 5, "cm", 3), Tier: tier})
+		}
+		base := P("nv", 2, "w", 2, "par", 0)
+		for cop := 1; cop <= 6; cop++ {
+			for _, fs := range []int{0, 1, 2} {
+				tier := 0
+				if fs == 1 && cop%2 == 0 {
+					tier = 1
+				}
+				ad(with(base, "q", 0, "cop", cop, "fs", fs), tier)
+			}
+			ad(with(base, "q", 0, "cop", cop, "fs", 3, "nv", 3), 1)
+		}
+		for _, par := range []int{1, 2} {
+			ad(with(base, "q", 0, "cop", 1, "fs", 0, "par", par), 0)
+			ad(with(base, "q", 0, "cop", 6, "fs", 2, "par", par), 0)
+		}
+		ad(with(base, "q", 0, "cop", 2, "fs", 0, "w", 3, "nv", 1), 0)
+		for _, fs := range []int{0, 1, 2, 3} {
+			ad(with(base, "q", 2, "fs", fs), 0)
+			ad(with(base, "q", 3, "fs", fs), 0)
+		}
+		ad(with(base, "q", 2, "fs", 0, "par", 2), 0)
+		ad(with(base, "q", 4, "fs", 0, "nv", 1), 0)
+		ad(with(base, "q", 4, "fs", 0), 1)
+		ad(with(base, "q", 4, "fs", 2), 1)
+		ad(with(base, "q", 5, "fs", 0), 0)
+		ad(with(base, "q", 5, "fs", 0, "w", 3), 0)
+		ad(with(base, "q", 5, "fs", 0, "par", 2), 0)
+		if pkg == "roaring64" {
+			for _, cop := range []int{1, 3, 6} {
+				ad(with(base, "q", 1, "cop", cop, "fs", 0), 0)
+			}
+			for cop := 1; cop <= 5; cop++ {
+				ad(with(base, "q", 6, "cop", cop, "fs", 0, "nv", 1, "w2", 2), 0)
+				ad(with(base, "q", 6, "cop", cop, "fs", 0, "nv", 1, "w2", 3), 1)
+				ad(with(base, "q", 6, "cop", cop, "fs", 0, "w2", 2), 1)
+			}
 		}
 	}
 }
